@@ -4,6 +4,7 @@ import (
 	"fmt"
 	"math/big"
 	mrand "math/rand"
+	"sort"
 
 	"verifharness/mon"
 	"verifharness/world"
@@ -13,9 +14,9 @@ func init() { Registry["C05"] = c05 }
 
 // c05World: an honest world whose TCB-Info and QE-Identity are signed by two different TCB-signing certificates.
 type c05World struct {
-	w              *world.World
-	tcbSig, qeSig  *world.Cert
-	targets        map[string]*big.Int
+	w             *world.World
+	tcbSig, qeSig *world.Cert
+	targets       map[string]*big.Int
 }
 
 func c05Base(r *mrand.Rand, rootDPs []string) *c05World {
@@ -73,18 +74,18 @@ func revokedSets(r *mrand.Rand, t *big.Int) map[string][]*big.Int {
 	shifted := new(big.Int).Lsh(one, uint(8*(len(t.Bytes())))) // target with a leading 0x01 byte
 	shifted.Add(shifted, t)
 	return map[string][]*big.Int{
-		"target":              {t},
-		"target-among-others": {big20(), t, big20()},
-		"target-first-of-1000": many(0),
-		"target-middle-of-1000": many(500),
-		"target-last-of-1000":  many(999),
-		"target-twice":         {t, t},
-		"near-miss-plus-1":     {add(1)},
-		"near-miss-minus-1":    {add(-1)},
+		"target":                 {t},
+		"target-among-others":    {big20(), t, big20()},
+		"target-first-of-1000":   many(0),
+		"target-middle-of-1000":  many(500),
+		"target-last-of-1000":    many(999),
+		"target-twice":           {t, t},
+		"near-miss-plus-1":       {add(1)},
+		"near-miss-minus-1":      {add(-1)},
 		"near-miss-leading-byte": {shifted},
-		"near-miss-times-256":  {new(big.Int).Lsh(t, 8)},
-		"unrelated-20-byte":    {big20(), big20()},
-		"unrelated-1000":       many(-1),
+		"near-miss-times-256":    {new(big.Int).Lsh(t, 8)},
+		"unrelated-20-byte":      {big20(), big20()},
+		"unrelated-1000":         many(-1),
 	}
 }
 
@@ -239,7 +240,7 @@ func c05(x *mon.Ctx) {
 		}
 	}
 	// ---- CRL signers
-	other := world.NewPKI(world.Far, world.SgxExtension(base.P)) // look-alike CAs: same names, other keys
+	other := world.NewPKI(world.Far, world.SgxExtension(base.P))              // look-alike CAs: same names, other keys
 	foreignRoot := &world.Cert{Cert: base.PKI.Root.Cert, Key: world.NewKey()} // signs "as" the root with a key that is not the root's
 	foreignInter := &world.Cert{Cert: base.PKI.Inter.Cert, Key: world.NewKey()}
 	this, next := world.Epoch.Add(-world.Day), world.Epoch.Add(30*world.Day)
@@ -273,17 +274,17 @@ func c05(x *mon.Ctx) {
 	garbage := []byte("\x30\x82 garbage, not DER")
 	outcomes := func(good []byte, otherCRL []byte, alien []byte) map[string]world.Resp {
 		return map[string]world.Resp{
-			"error":             {Err: "connection refused"},
-			"empty":             {B: []byte{}},
-			"nil":               {B: nil},
-			"garbage":           {B: garbage},
-			"truncated-half":    {B: good[:len(good)/2]},
-			"truncated-last":    {B: good[:len(good)-1]},
-			"trailing-byte":     {B: append(append([]byte{}, good...), 0)},
-			"pem-encoded":       {B: []byte("-----BEGIN X509 CRL-----\nAAAA\n-----END X509 CRL-----\n")},
-			"the-other-crl":     {B: otherCRL},
+			"error":                 {Err: "connection refused"},
+			"empty":                 {B: []byte{}},
+			"nil":                   {B: nil},
+			"garbage":               {B: garbage},
+			"truncated-half":        {B: good[:len(good)/2]},
+			"truncated-last":        {B: good[:len(good)-1]},
+			"trailing-byte":         {B: append(append([]byte{}, good...), 0)},
+			"pem-encoded":           {B: []byte("-----BEGIN X509 CRL-----\nAAAA\n-----END X509 CRL-----\n")},
+			"the-other-crl":         {B: otherCRL},
 			"lookalike-issuers-crl": {B: alien},
-			"a-certificate":     {B: base.PKI.Root.DER},
+			"a-certificate":         {B: base.PKI.Root.DER},
 		}
 	}
 	for name, resp := range outcomes(base.PckCRL, base.RootCRL, world.MkCRL(other.Inter, this, next, nil)) {
@@ -338,6 +339,70 @@ func c05(x *mon.Ctx) {
 	{
 		cw0 := c05Base(x.Rand("dp0"), []string{})
 		add(cw0.w, "distribution-points", "0-none", "reject", on)
+	}
+	// ---- thorough: random revoked sets over further worlds (each with its own PKI, distinct and shared signers)
+	if !x.Quick() {
+		for wn := 0; wn < 24; wn++ {
+			rr := x.Rand(fmt.Sprint("rand-world", wn))
+			var ww *world.World
+			tg := map[string]*big.Int{}
+			if wn%2 == 0 {
+				cwx := c05Base(rr, nil)
+				ww, tg = cwx.w, cwx.targets
+			} else {
+				ww = world.Honest(rr, world.HonestOpts{Shape: world.QuoteShape{AuthLen: 32}})
+				tg = map[string]*big.Int{"leaf": ww.PKI.Leaf.Cert.SerialNumber, "intermediate": ww.PKI.Inter.Cert.SerialNumber, "tcb-signer": ww.PKI.TcbSign.Cert.SerialNumber}
+			}
+			twin(ww)
+			names := []string{}
+			for n := range tg {
+				names = append(names, n)
+			}
+			sort.Strings(names)
+			for k := 0; k < 200; k++ {
+				var rootRev, pckRev []*big.Int
+				for n := rr.Intn(40); n > 0; n-- {
+					b := make([]byte, 1+rr.Intn(20))
+					rr.Read(b)
+					v := new(big.Int).SetBytes(b)
+					if rr.Intn(2) == 0 {
+						rootRev = append(rootRev, v)
+					} else {
+						pckRev = append(pckRev, v)
+					}
+				}
+				label := "none"
+				if rr.Intn(3) != 0 { // list one real serial, in the governing or in the other CRL, possibly perturbed
+					t := names[rr.Intn(len(names))]
+					v := new(big.Int).Set(tg[t])
+					switch rr.Intn(4) {
+					case 0:
+						v.Add(v, big.NewInt(1))
+						label = t + "+1"
+					case 1:
+						v.Lsh(v, 8)
+						label = t + "<<8"
+					default:
+						label = t
+					}
+					if rr.Intn(4) == 0 {
+						label += "@other-crl"
+						if t == "leaf" {
+							rootRev = append(rootRev, v)
+						} else {
+							pckRev = append(pckRev, v)
+						}
+					} else if t == "leaf" {
+						pckRev = append(pckRev, v)
+					} else {
+						rootRev = append(rootRev, v)
+					}
+				}
+				w := ww.Clone()
+				w.MakeCRLs(rootRev, pckRev)
+				add(w, "random-revoked-sets", fmt.Sprintf("world%d/%d/%s", wn, k, label), "", opts[rr.Intn(2)])
+			}
+		}
 	}
 	x.Each(len(cases), func(i int) {
 		out, v := check(x, i, cases[i])
